@@ -531,3 +531,65 @@ package profile
 //@     invariant 0 <= $i && $i <= len(s.Value) && len(srcVals) == len(p.SampleType) && len(s.Value) == len(p.SampleType)
 //@   loop 5
 //@     invariant 0 <= $i && $i <= len(baseVals) && len(normScale) == len(baseVals) && len(srcVals) == len(baseVals) && len(baseVals) == len(p.SampleType) && samplesok(p)
+
+// ---- C14/C02: legacy binary profile readers ----
+
+//@ func get32l arith bv
+//@   ensures short: len(b) < 4 ==> result0 == 0 && len(result1) == 0 && result1 == nil
+//@   ensures value: len(b) >= 4 ==> result0 == uint64(b[0]) | uint64(b[1])<<8 | uint64(b[2])<<16 | uint64(b[3])<<24
+//@   ensures rest: len(b) >= 4 ==> same_elems(result1, b[4:])
+//@ func get32b arith bv
+//@   ensures short: len(b) < 4 ==> result0 == 0 && len(result1) == 0 && result1 == nil
+//@   ensures value: len(b) >= 4 ==> result0 == uint64(b[3]) | uint64(b[2])<<8 | uint64(b[1])<<16 | uint64(b[0])<<24
+//@   ensures rest: len(b) >= 4 ==> same_elems(result1, b[4:])
+//@ func get64l arith bv
+//@   ensures short: len(b) < 8 ==> result0 == 0 && len(result1) == 0 && result1 == nil
+//@   ensures value: len(b) >= 8 ==> result0 == uint64(b[0]) | uint64(b[1])<<8 | uint64(b[2])<<16 | uint64(b[3])<<24 | uint64(b[4])<<32 | uint64(b[5])<<40 | uint64(b[6])<<48 | uint64(b[7])<<56
+//@   ensures rest: len(b) >= 8 ==> same_elems(result1, b[8:])
+//@ func get64b arith bv
+//@   ensures short: len(b) < 8 ==> result0 == 0 && len(result1) == 0 && result1 == nil
+//@   ensures value: len(b) >= 8 ==> result0 == uint64(b[7]) | uint64(b[6])<<8 | uint64(b[5])<<16 | uint64(b[4])<<24 | uint64(b[3])<<32 | uint64(b[2])<<40 | uint64(b[1])<<48 | uint64(b[0])<<56
+//@   ensures rest: len(b) >= 8 ==> same_elems(result1, b[8:])
+
+// scaleHeapSample: zero stays zero, rates up to 1 leave the pair alone, otherwise both numbers are multiplied by
+// 1/(1-exp(-(size/count)/rate)) (exp is uninterpreted: the shape of the formula is pinned) and truncated.
+//@ spec func fexp(x float64) float64
+//@ spec macro func unsamplescale(count int64, size int64, rate int64) float64 = 1.0 / (1.0 - fexp(-(float64(size) / float64(count)) / float64(rate)))
+//@ spec macro func inrange64(x float64) bool = x >= -9223372036854775808.0 && x < 9223372036854775808.0
+//@ func scaleHeapSample arith bv
+//@   ensures zero: count == 0 || size == 0 ==> result0 == 0 && result1 == 0
+//@   ensures unsampled: count != 0 && size != 0 && rate <= 1 ==> result0 == count && result1 == size
+//@   ensures scaled_count: count != 0 && size != 0 && rate > 1 && inrange64(float64(count) * unsamplescale(count, size, rate)) ==> result0 == int64(float64(count) * unsamplescale(count, size, rate))
+//@   ensures scaled_size: count != 0 && size != 0 && rate > 1 && inrange64(float64(size) * unsamplescale(count, size, rate)) ==> result1 == int64(float64(size) * unsamplescale(count, size, rate))
+
+// parseCPUSamples: no index out of range and no negative allocation for any bytes and any word reader.
+//@ func parseCPUSamples arith bv
+//@   requires p != nil
+//@   loop 1
+//@     invariant p != nil
+//@   loop 2
+//@     invariant 0 <= i && i <= len(addrs) && len(addrs) == int(nstk)
+//@   loop 3
+//@     invariant 0 <= $i && $i <= len(addrs)
+
+//@ func cleanupDuplicateLocations arith bv
+//@   requires wfprofile(p)
+//@   ensures count: len(p.Sample) == old(len(p.Sample))
+//@   loop 1
+//@     invariant 0 <= $i && $i <= len(p.Sample) && len(p.Sample) == old(len(p.Sample))
+//@     invariant forall k int :: 0 <= k && k < len(p.Sample) ==> p.Sample[k] != nil
+//@          && forall j int :: 0 <= j && j < len(p.Sample[k].Location) ==> p.Sample[k].Location[j] != nil
+
+// remapLocationIDs: no index out of range, no nil dereference on well-formed profiles. (The functional
+// statement "ids are 1..n and pairwise distinct" was attempted and withdrawn: the append-step
+// obligations did not discharge within the budget.)
+//@ func Profile.remapLocationIDs arith bv
+//@   requires wfprofile(p)
+//@   loop 1
+//@     invariant 0 <= $i && $i <= len(p.Sample)
+//@     invariant forall k int :: 0 <= k && k < len(p.Sample) ==> p.Sample[k] != nil
+//@          && forall j int :: 0 <= j && j < len(p.Sample[k].Location) ==> p.Sample[k].Location[j] != nil
+//@   loop 2
+//@     invariant 0 <= $i && $i <= len(s.Location)
+//@     invariant forall k int :: 0 <= k && k < len(p.Sample) ==> p.Sample[k] != nil
+//@          && forall j int :: 0 <= j && j < len(p.Sample[k].Location) ==> p.Sample[k].Location[j] != nil
